@@ -272,6 +272,7 @@ static void cur_token(char *tok, size_t tn, char *desc, size_t dn)
         if (cur.note[0] && d + 20 < dn) snprintf(desc + d, dn - d, " {%s}", cur.note);
     } else {
         snprintf(tok, tn, "none");
+        snprintf(desc, dn, "%s", cur.note);
     }
 }
 
@@ -396,7 +397,8 @@ void mc_poll_sanitizers(void)
 #endif
 }
 
-long mc_live_bytes(void)
+static long g_engine_bytes;          /* heap held by the engine's own tables; excluded from the harness' view */
+static long raw_live_bytes(void)
 {
 #ifdef MC_ASAN
     return (long) __sanitizer_get_current_allocated_bytes();
@@ -405,6 +407,7 @@ long mc_live_bytes(void)
     return (long) (mi.uordblks + mi.hblkhd);
 #endif
 }
+long mc_live_bytes(void) { return raw_live_bytes() - g_engine_bytes; }
 size_t mc_block_size(const void *p)
 {
     if (!p) return 0;
@@ -611,6 +614,20 @@ static void worker_leave(int w, int complete)
     _exit(0);
 }
 
+int mc_guarded(const char *sysname, const char *what, void (*fn)(void *), void *ctx)
+{
+    int sig;
+    memset(&cur, 0, sizeof cur);
+    cur.kind = 0; cur.sysname = sysname; cur.op = -1;
+    snprintf(cur.note, sizeof cur.note, "%s", what);
+    g_case_serial++;
+    mc_protected = 1;
+    if ((sig = sigsetjmp(mc_jmp, 0)) == 0) fn(ctx);
+    mc_protected = 0;
+    mc_poll_sanitizers();
+    return sig;
+}
+
 /* ------------------------------------------------------------------ E2 */
 static int token_e2(const char *tok, const char *sysname, int level, uint64_t *idx)
 {
@@ -786,15 +803,19 @@ static int ss_find(const strset *s, const char *k, size_t *pos)
 }
 static void ss_grow(strset *s)
 {
+    long b0 = raw_live_bytes();
     strset n; ss_init(&n, s->cap * 2);
     for (size_t i = 0; i < s->cap; i++) if (s->slot[i]) { size_t p; ss_find(&n, s->slot[i], &p); n.slot[p] = s->slot[i]; n.n++; }
     free(s->slot); *s = n;
+    g_engine_bytes += raw_live_bytes() - b0;
 }
 static int ss_add(strset *s, const char *k)      /* 1 if new */
 {
     size_t p;
     if (ss_find(s, k, &p)) return 0;
+    long b0 = raw_live_bytes();
     s->slot[p] = strdup(k); s->n++;
+    g_engine_bytes += raw_live_bytes() - b0;
     if (s->n * 2 > s->cap) ss_grow(s);
     return 1;
 }
@@ -892,7 +913,7 @@ int mc_e1_run(const mc_sys *sys, int max_depth)
         int c; void *st = e1_build(sys, NULL, 0, &c);
         if (c || !st) { emitf("E\tinitial state of %s cannot be built", sys->name); free(F); return 0; }
         sys->canon(st, key, sizeof key);
-        F[0].ops = NULL; F[0].key = strdup(key);
+        { long b0 = raw_live_bytes(); F[0].ops = NULL; F[0].key = strdup(key); g_engine_bytes += raw_live_bytes() - b0; }
         ss_add(&seen, key); states = 1;
         e1_guarded(sys->probe, st, "probe", &c);
         if (!c) e1_guarded(sys->teardown, st, "teardown", &c);
@@ -917,6 +938,8 @@ int mc_e1_run(const mc_sys *sys, int max_depth)
             if (p == 0) {
                 worker_enter();
                 FILE *out = fdopen(fds[w], "w");
+                static char outbuf[1 << 16];
+                setvbuf(out, outbuf, _IOFBF, sizeof outbuf);
                 uint64_t tr = 0, replays = 0; int complete = 1;
                 for (size_t i = (size_t) w; i < nF; i += (size_t) W) {
                     if (mc_deadline_hit()) { complete = 0; break; }
